@@ -1,16 +1,97 @@
 /-
-  PCV.Model.DrvMLPC — driver requests of the MLPC scheme model (op names start with "mlpc.").
+  PCV.Model.DrvMLPC — driver requests `mlpc.*` of the multilinear PST model (`PCV.Model.MLPC`).
+  Universal parameters are given either by trapdoor (`nv g h t`: the driver runs the model's `setup`,
+  so `setup` is exercised by every such request) or explicitly (`nv g h pg ph mask`).
+    mlpc.setup   nv g h t                       -> nv g h mask pg ph (+ pg<i>, ph<i> per table)
+    mlpc.tables  c t                            -> tables            (the `eq`-tensor specification)
+    mlpc.trim    <pp> supported                 -> ck / vk fields
+    mlpc.commit  <pp> supported pnv evals       -> cnv c
+    mlpc.open    <pp> supported pnv evals point -> n proofs (+ pi<i>)
+    mlpc.check   vnv g h mask cnv c point v proofs -> b          (scalar form, any key)
+    mlpc.eval    evals point                    -> v                 (`mleEval`)
 -/
 import PCV.Model.Wire
 import PCV.Model.DrvUtil
+import PCV.Model.MLPC
 namespace PCV
 namespace DrvMLPC
+open Driver MLPC
 
-/-- `none` = not an op of this module -/
+variable {p : Nat}
+
+def vFess (xs : List (List (Fp p))) : Val := .l (xs.map vFes)
+
+/-- numbered fields `k0=… k1=…` -/
+def numbered (k : String) (vs : List Val) : List (String × Val) :=
+  (List.range vs.length).zip vs |>.map fun (i, v) => (k ++ toString i, v)
+
+def getPP (r : Req) : R (Except Err (UParams (Fp p))) := do
+  let nv ← asNat (← need r "nv")
+  let g ← asFe (p := p) (← need r "g")
+  let h ← asFe (p := p) (← need r "h")
+  match r.get? "pg" with
+  | some pg =>
+    let pg ← asFess (p := p) pg
+    let ph ← asFess (p := p) (← need r "ph")
+    let mask ← asFes (p := p) (← need r "mask")
+    pure (.ok ⟨nv, pg, ph, g, h, mask⟩)
+  | none =>
+    let t ← asFes (p := p) (← need r "t")
+    pure (setup nv g h t)
+
+def ppFields (pp : UParams (Fp p)) : List (String × Val) :=
+  [("nv", .n pp.numVars), ("g", vFe pp.g), ("h", vFe pp.h), ("mask", vFes pp.gMask),
+   ("pg", vFess pp.powersOfG), ("ph", vFess pp.powersOfH)]
+  ++ numbered "pg" (pp.powersOfG.map vFes) ++ numbered "ph" (pp.powersOfH.map vFes)
+
 def handle (p : Nat) (r : Req) : Option (Except String String) :=
-  let _ := p
-  let _ := r
-  none
+  if !r.op.startsWith "mlpc." then none else some do
+  match r.op with
+  | "mlpc.setup" =>
+    let pp ← getPP (p := p) r
+    pure <| exceptReply pp ppFields
+  | "mlpc.tables" =>
+    let c ← asFe (p := p) (← need r "c")
+    let t ← asFes (p := p) (← need r "t")
+    pure <| okReply ([("tables", vFess (tables c t))] ++ numbered "tb" ((tables c t).map vFes))
+  | "mlpc.eval" =>
+    let evals ← asFes (p := p) (← need r "evals")
+    let point ← asFes (p := p) (← need r "point")
+    pure <| okReply [("v", vFe (mleEval evals point))]
+  | "mlpc.check" =>
+    let vk : VK (Fp p) := ⟨← asNat (← need r "vnv"), ← asFe (← need r "g"), ← asFe (← need r "h"),
+      ← asFes (← need r "mask")⟩
+    let c : Commitment (Fp p) := ⟨← asNat (← need r "cnv"), ← asFe (← need r "c")⟩
+    let point ← asFes (p := p) (← need r "point")
+    let v ← asFe (p := p) (← need r "v")
+    let proofs ← asFes (p := p) (← need r "proofs")
+    pure <| exceptReply (check vk c point v proofs) fun b => [("b", vBool b)]
+  | op =>
+    let pp ← getPP (p := p) r
+    match pp with
+    | .error e => pure (errReply e)
+    | .ok pp =>
+    let supported ← asNat (← need r "supported")
+    match trim pp supported with
+    | .error e => pure (errReply e)
+    | .ok (ck, vk) =>
+    match op with
+    | "mlpc.trim" =>
+      pure <| okReply ([("cknv", .n ck.nv), ("ckg", vFe ck.g), ("ckh", vFe ck.h),
+        ("ckpg", vFess ck.powersOfG), ("ckph", vFess ck.powersOfH),
+        ("vknv", .n vk.nv), ("vkg", vFe vk.g), ("vkh", vFe vk.h), ("vkmask", vFes vk.gMaskRandom)]
+        ++ numbered "ckpg" (ck.powersOfG.map vFes) ++ numbered "ckph" (ck.powersOfH.map vFes))
+    | "mlpc.commit" =>
+      let pnv ← asNat (← need r "pnv")
+      let evals ← asFes (p := p) (← need r "evals")
+      pure <| exceptReply (commit ck pnv evals) fun c => [("cnv", .n c.nv), ("c", vFe c.gProduct)]
+    | "mlpc.open" =>
+      let pnv ← asNat (← need r "pnv")
+      let evals ← asFes (p := p) (← need r "evals")
+      let point ← asFes (p := p) (← need r "point")
+      pure <| exceptReply (MLPC.open ck pnv evals point) fun ps =>
+        [("n", .n ps.length), ("proofs", vFes ps)] ++ numbered "pi" (ps.map vFe)
+    | _ => .error "unknown-op"
 
 end DrvMLPC
 end PCV
